@@ -2,6 +2,7 @@
 import io
 import os
 import shutil
+import sys
 import tempfile
 
 from .. import cfggen, cfgrun, cfgstream, core, ovgen, pkggen, schemafam as F
@@ -390,11 +391,17 @@ def _validator(ctx, cases):
                 plans += [[bad[0], good[0]], [good[0], bad[0]], [bad[0], bad[-1], good[0]], [good[0], bad[0], good[-1]]]
             # the same loop on the model (lean/ZCV/Model/Validator.lean, theorems C07_validator_*): status and messages from
             # the per-file outcomes of the real loads
+            # (the messages the model loop is given come from loads done the way the validator does them - schema by path,
+            # file by path - so that an error located IN THE SCHEMA, e.g. a default that does not convert, names the same
+            # resource; with a schema loaded from a string it would name the configuration file: false alarm, VERIF_SEED=3)
             msg_of = {}
+            try:
+                vschema = ZConfig.loadSchema(sp)
+            except Exception:
+                vschema = F.load_real(cs[0].sd)
             for p in bad:
                 try:
-                    with open(p, encoding="utf-8", newline="") as fobj:
-                        ZConfig.loadConfigFile(F.load_real(cs[0].sd), fobj)
+                    ZConfig.loadConfig(vschema, p)
                 except ZConfig.ConfigurationError as e:
                     msg_of[p] = str(e)
             model_ans = core.driver_batch([[Atom("validator"), [([Atom("cfg"), msg_of.get(p, "?")] if p in bad else Atom("valid")) for p in paths]]
@@ -428,5 +435,30 @@ def _validator(ctx, cases):
                     ctx.violate("validator printed %d messages for %d invalid files" % (buf.messages, expected_bad),
                                 {"schema_xml": F.render_xml(cs[0].sd), "texts": texts, "stderr": buf.getvalue()[:500]},
                                 signature="C07:validator:messages")
+            # no file argument: the text comes from standard input (a pipe, not a terminal); same verdict, one message
+            for p in (good[:1] + bad[:1]):
+                text = open(p, encoding="utf-8", newline="").read()
+                buf = CountingStream()
+                old_stdin = sys.stdin
+                sys.stdin = io.StringIO(text)
+                try:
+                    with contextlib.redirect_stderr(buf), contextlib.redirect_stdout(io.StringIO()):
+                        rc = validator.main(["--schema", sp])
+                except SystemExit as e:
+                    rc = e.code
+                except Exception as e:
+                    ctx.violate("validator.main raised %s for a text on standard input" % type(e).__name__,
+                                {"schema_xml": F.render_xml(cs[0].sd), "stdin": text}, signature="C07:validator-stdin:" + type(e).__name__)
+                    continue
+                finally:
+                    sys.stdin = old_stdin
+                ctx.evaluations += 1
+                want = 1 if p in bad else 0
+                ctx.count("validator-stdin:rc=%s" % rc)
+                if rc != want or buf.messages != want:
+                    ctx.violate("validator on standard input: status %r, %d messages for a text that is %s" % (
+                        rc, buf.messages, "invalid" if want else "valid"),
+                        {"schema_xml": F.render_xml(cs[0].sd), "stdin": text, "stderr": buf.getvalue()[:500]},
+                        signature="C07:validator-stdin:status")
     finally:
         shutil.rmtree(root, ignore_errors=True)
